@@ -270,3 +270,17 @@ def oracle_foreign(case, obs):
 
 FAMILIES.append(Family("foreign_logger", gen_foreign, impl_foreign, None, None, oracle_foreign,
                        lambda case, obs: json.dumps(case) if case["outer"] != "none" else None, shard=30, case_timeout=30))
+
+
+# two raw Logger.write() messages (they carry no task_uuid / task_level) that both fail at a destination: each report
+# renders its own message
+_RAW2 = {"classes": [], "registry": [],
+         "pre": [["add", [[1, ["never"], {"id": 90, "cls": 2, "text": 100, "sr": False, "falsy": False}],
+                          [2, ["not_reports"], {"id": 91, "cls": 9, "text": 101, "sr": False, "falsy": False}]]]],
+         "prog": [["rawwrite", 12, [[33, {"i": 1}], [5, {"t": 12}]], None],
+                  ["rawwrite", 13, [[34, {"i": 2}], [5, {"t": 13}]], None],
+                  ["act", 1, "with", False, 10, [[19, {"i": 1}]], None, [[19, {"i": 1}]],
+                   [["rawwrite", 12, [[35, {"i": 3}], [5, {"t": 12}]], None]], "start_action"]]}
+for _f in FAMILIES:
+    if _f.name == "programs":
+        _f.corpus = list(_f.corpus or []) + [_RAW2]
